@@ -53,3 +53,80 @@ def build(reg):
         loops={0: LoopSpec(index='i', modifies=['has_transfer_encoding', 'k', '_'],
                            inv=["has_transfer_encoding == exists('j', 0, i, lower(keys(headers)[j]) == b'transfer-encoding')"])}))
     return T
+
+
+def bounded_checks(reg, tier, seed):
+    """Bounded stand-in / counterexample finder: every self-made response is parsed by an
+    independent parser (http.client) and its framing compared with the bytes actually emitted —
+    builder argument grid + every canned packet + okResponse / redirects."""
+    import gzip
+    import http.client
+    import io
+    import itertools
+    from proxy.common.utils import build_http_response
+    from proxy.http import responses as R
+
+    class FakeSock(object):
+        def __init__(self, data):
+            self.f = io.BytesIO(data)
+
+        def makefile(self, *a, **k):
+            return self.f
+
+    def check(pkt, want_body, what, close_delimited=False):
+        pkt = bytes(pkt)
+        try:
+            r = http.client.HTTPResponse(FakeSock(pkt))
+            r.begin()
+        except Exception as e:      # noqa
+            return '%s: independent parser rejects it: %r' % (what, e)
+        head, _, emitted = pkt.partition(b'\r\n\r\n')
+        cls = [v for k, v in r.getheaders() if k.lower() == 'content-length']
+        te = [v for k, v in r.getheaders() if k.lower() == 'transfer-encoding']
+        if cls and not te:
+            if len(set(cls)) != 1 or int(cls[0]) != len(emitted):
+                return '%s: Content-Length %s but %d body bytes were emitted' % (what, cls, len(emitted))
+        if want_body is not None and not te and emitted != want_body and not (r.getheader('content-encoding') == 'gzip'):
+            return '%s: body differs' % what
+        if r.getheader('content-encoding') == 'gzip' and want_body is not None and gzip.decompress(emitted) != want_body:
+            return '%s: gzip body does not decode to the content' % what
+        return None
+    bad = []
+    n = 0
+    hsets = [None, {}, {b'X': b'y'}, {b'content-length': b'7'}, {b'Content-Length': b'7'}, {b'Transfer-Encoding': b'chunked'},
+             {b'transfer-encoding': b'chunked', b'X': b'1'}]
+    for hs, body, cc, nocl, reason in itertools.product(hsets, (None, b'', b'abc', b'x' * 70), (False, True), (False, True), (None, b'OK')):
+        if hs and any(k.lower() == b'transfer-encoding' for k in hs):
+            continue        # body would have to be chunk-encoded by the caller
+        if nocl and body and not cc:
+            continue        # caller's choice: close-delimited needs Connection: close
+        pkt = build_http_response(200, reason=reason, headers=(dict(hs) if hs is not None else None), body=body,
+                                  conn_close=cc, no_cl=nocl)
+        n += 1
+        e = check(pkt, body or b'', 'build_http_response(headers=%r, body=%d bytes, conn_close=%s, no_cl=%s)' % (
+            hs, len(body or b''), cc, nocl))
+        if e:
+            bad.append(e)
+    for name in dir(R):
+        v = getattr(R, name)
+        if isinstance(v, memoryview):
+            n += 1
+            e = check(v, None, 'responses.' + name)
+            if e:
+                bad.append(e)
+    shared = {b'X-App': b'1'}
+    for content in (b'', b'hi', b'z' * 50, b'q' * 5000):
+        for compress in (False, True):
+            n += 1
+            e = check(R.okResponse(content=content, headers=shared, compress=compress, min_compression_length=20), content,
+                      'okResponse(%d bytes, compress=%s, shared headers dict)' % (len(content), compress))
+            if e:
+                bad.append(e)
+    for f in (R.permanentRedirectResponse, R.seeOthersResponse):
+        n += 1
+        e = check(f(b'http://x/'), b'', f.__name__)
+        if e:
+            bad.append(e)
+    return [{'name': 'self-made responses vs independent parser (http.client)', 'bounded': True,
+             'bound': 'builder argument grid (7 header sets x 4 bodies x flags), all canned packets, okResponse x 4 sizes x compress, redirects',
+             'cases': n, 'violations': bad[:3]}]
